@@ -219,8 +219,8 @@ pub fn run_case(
           "slot-on-redirect-source"
         } else if facts.cyclic {
           "redirect-cycle"
-        } else if facts.hops >= 2 {
-          "specifiers-immediate-target-only"
+        } else if facts.hops >= RESOLVE_CAP_HOPS {
+          "resolve-cap"
         } else {
           "specifiers-disagrees-with-walk"
         };
